@@ -666,10 +666,13 @@ package client
 // Registration of a dispute by the client: always for the root of the channel tree, with exactly the root's current
 // transaction and the current transactions of all its sub-channels.
 //@ ghost func subSignedStatesOf(c *Channel) []channel.SignedState
+// Like subChannelStateMap: the list is filled through the recursive walk over the tree below c (call-site obligation); the closure
+// that appends each visited channel's parameters and current transaction stores an interior pointer (&machine.params) in the heap,
+// which is outside the verified subset, so it is not under contract; the walk's recursion is trusted.
 //@ func (*Channel).gatherSubChannelStates
-//@   trusted
 //@   requires c != nil
-//@   ensures err == nil ==> states == subSignedStatesOf(c)
+//@   callsite (*Channel).applyToSubChannelsRecursive : recv == outer_c
+//@   trustedensures err == nil ==> states == subSignedStatesOf(c)
 //@ func (*Channel).tryLockRecursive
 //@   trusted
 //@   requires c != nil
